@@ -943,12 +943,21 @@ impl TypeCheckVisitor<'_> {
                 Type::unit()
             }
             Expression_::ForIn(dest, expr, body) => {
-                let expr_ty = self.check_expr(
-                    &Type::list(Type::Any),
-                    expr,
-                    type_bindings,
-                    expected_return_ty,
-                );
+                // Infer the type of the sequence rather than checking it
+                // against `List<Any>`: checking would accept a literal
+                // whose items have different types (or branches that
+                // disagree) and give the loop variable an unchecked type.
+                let expr_ty = self.infer_expr(expr, type_bindings, expected_return_ty);
+                let expected_ty = Type::list(Type::Any);
+                if !is_subtype(&expr_ty, &expected_ty) {
+                    self.diagnostics.push(Diagnostic {
+                        notes: vec![],
+                        fixes: vec![],
+                        severity: Severity::Error,
+                        message: format_type_mismatch(&expected_ty, &expr_ty),
+                        position: expr.position.clone(),
+                    });
+                }
 
                 self.bindings.enter_block();
 
